@@ -986,6 +986,11 @@ def stage(ck, outs, prefix="sched_"):
             specs.append(sp)
             sowners.append(o)
         meta = s.get("meta") or {}
+        # the allocation the schedule leads to, shared SRAM: arena total against the optimisation target (a soft limit: Vela warns)
+        if meta.get("spilling") is False and meta.get("alloc"):
+            ck.count(prefix + "shared_sram_compilations")
+            if meta["alloc"][0]["total"] > meta.get("sram_target", 1 << 62):
+                ck.count(prefix + "shared_sram_total_exceeds_target_" + str(meta.get("strategy", "?")).split(".")[-1])
         # the allocation the schedule leads to, Dedicated SRAM: fast-scratch total against the configured cache
         if meta.get("spilling"):
             ck.count(prefix + "dedicated_sram_compilations")
